@@ -91,9 +91,6 @@ Qed.
 (* the type of a gadget node of the elementwise fragment: a leaf, or a triple whose first
    component is a leaf *)
 Definition share_ty (t : ty) : Prop := exists t1 t2 t3, t = TTuple [t1; t2; t3] /\ is_leaf t1 = true.
-Definition is_bil (o : op) : bool := match o with OMultiply | ODot | OMatmul | OGemm _ _ => true | _ => false end.
-Definition elem_gadget (g : gadget) : bool :=
-  match g with GAdd | GSub => true | GBil o => is_bil o end.
 
 Lemma infer_bil_leaf o a b r : is_bil o = true -> infer o [a; b] = Ok r -> is_leaf r = true.
 Proof.
